@@ -210,6 +210,85 @@ def ins_part(scratch, tier, seed, v, stats):
     return len(specs), istats.get("states", 0)
 
 
+def pool_part(scratch, tier, seed, v, stats, plans, nlive, sd):
+    """Signals while a multiprocessing pool is in use (n_pool=2): the C13 clauses as for any other
+    injection point (exit code, checkpoint left, resume completes with valid state) plus the pool life
+    cycle of PoolLife.tla on the traced pool operations (M-clauses: pool closed/terminated and joined
+    BEFORE the handler's checkpoint, terminate only for SIGINT, nothing pickled)."""
+    from .poollife import model_check as pool_model_check, validate_pool
+
+    pstates = pool_model_check(scratch)
+    calm = [(k, j, line) for (k, j, line) in plans if line[3] not in ("consume_sample", "finalise") and k != "finalise"]
+    step = max(1, len(calm) // (4 if tier == "quick" else 24))
+    chosen = calm[::step][: (4 if tier == "quick" else 24)]
+    specs = []
+    for n, (k, j, line) in enumerate(chosen):
+        s = base(sd, nlive)
+        s["kwargs"]["n_pool"] = 2
+        s["extra"] = {"trace_pool": True}
+        s["extra_by_proc"] = {"0": {"line_signals": {"at_iteration": k, "line": j, "signum": [15, 2, 14][n % 3]}}}
+        s["signal_exit"] = 130 if n % 2 else 9
+        s["exit_code"] = s["signal_exit"]
+        s["plan"] = {"iteration": k, "line": j, "where": line, "pool": True}
+        specs.append(s)
+    # complete runs with and without close_pool
+    for cp in (True, False):
+        s = base(sd + 1 + int(cp), nlive)
+        s["kwargs"].update(n_pool=2, close_pool=cp)
+        s["extra"] = {"trace_pool": True}
+        s["signal_handling"] = False
+        s["plan"] = {"complete": True, "close_pool": cp}
+        specs.append(s)
+    hs = run_corpus(specs, scratch / "pool")
+    good = []
+    for h in hs:
+        plan = h["spec"]["plan"]
+        if plan.get("complete"):
+            if h["codes"][-1] == 0:
+                good.append(h)
+            else:
+                v.mismatch(f"pool run did not complete: codes {h['codes']} {plan}")
+            continue
+        raw = load_events([f for f in h["events"] if os.path.exists(f)])
+        sig = next((e for e in raw if e["ev"] == "signal"), None)
+        if sig is None or h["codes"][0] == -9 or h["codes"][-1] == -9:
+            v.mismatch(f"pool signal point not reached / timeout: {plan} codes={h['codes']}")
+            continue
+        region = sig["region"]
+        if region in ("consume_sample", "finalise"):
+            continue       # (with a pool the line index landed inside a critical section: covered by the main part)
+        stats["pool_injected"] = stats.get("pool_injected", 0) + 1
+        where = (f"[n_pool=2] signal {sig['signum']} before {sig['file']}:{sig['lineno']} ({sig['func']}) "
+                 f"at iteration {plan['iteration']}")
+        h["where"], h["sig"] = where, sig
+        replay = {"spec": h["spec"], "signal": {k: sig[k] for k in ("idx", "file", "lineno", "func", "region", "signum")},
+                  "codes": h["codes"]}
+        if h["codes"][0] != h["spec"]["exit_code"]:
+            v.violation("exit_code", f"{where}: handler exited with {h['codes'][0]}, configured {h['spec']['exit_code']}",
+                        replay)
+        ck = [e for e in raw if e["proc"] == 0 and e["ev"] == "ckpt" and e["seq"] > sig["seq"]]
+        if not ck:
+            v.violation("no_checkpoint_left", f"{where}: the handler left no checkpoint", replay)
+        if len(h["codes"]) < 2 or h["codes"][-1] != 0:
+            v.violation("resumed_run_failed", f"{where}: the resumed run did not complete (codes {h['codes']})", replay)
+        good.append(h)
+    sig_hist = [h for h in good if "sig" in h]
+    if sig_hist:
+        records, _, _ = validate_standard(sig_hist, scratch, tag="poolsig")
+        for r in records:
+            if r["k"] == "P" and (r["p"] in ("C01", "C02", "C05") or
+                                  (r["p"] == "C15" and r["c"] == "live_points_consumed_once")):
+                h = sig_hist[r["h"]]
+                v.violation(r["c"].split(":")[0], f"{h['where']}: after the resume clause {r['p']}/{r['c']} fails at "
+                            f"event {r['l']}", {"spec": h["spec"], "signal": h["sig"], "clause": r["c"], "event": r["ev"]})
+    precs, pstats, _ = validate_pool(good, scratch)
+    for r in precs:
+        v.mismatch(f"pool history {r['h']} ({good[r['h']]['spec']['plan']}) event {r['l']}: {r['c']}")
+    pstats["model_states"] = pstates
+    pstats["histories"] = len(good)
+    return pstats
+
+
 def main(tier: str) -> int:
     seed = seed_from_env()
     v = Verdict(PROP, tier, seed, "fault_enumeration")
@@ -315,7 +394,9 @@ def main(tier: str) -> int:
                 v.violation(sig, f"{h['where']}: after the resume clause {r['p']}/{clause} fails at event {r['l']}",
                             {"spec": h["spec"], "signal": h["sig"], "clause": r["c"], "event": r["ev"]})
         n_ins, ins_states = ins_part(scratch, tier, seed, v, stats)
+        pool_stats = pool_part(scratch, tier, seed, v, stats, plans, nlive, sd)
         v.coverage = {
+            "pool_life_cycle": pool_stats, "pool_injected": stats.get("pool_injected", 0),
             "ins_injection_points": n_ins, "ins_injected": stats.get("ins_injected", 0),
             "ins_trace_states": ins_states,
             "evaluations": stats["injected"] + stats.get("ins_injected", 0),
